@@ -95,19 +95,19 @@ Record ccase := {
 
 Definition two_seconds : Z := 2000000000.
 
-(* Which tree the model follows. false = the pinned tree (findings recorded, not repaired).
-   When the proposed repair (findings/C13-*.json) is committed to /repo, set this to true:
-   the model then follows the repaired code and Props/C13.v's c13_content_no_panic_after_repair
-   is the full theorem about it. *)
-Definition repo_repaired : bool := false.
+(* Which tree the model follows: the proposed repairs (findings/C13-*.json) that have been
+   committed to /repo. The pinned tree has none. When a repair lands, set its flag to true: the
+   model then follows the repaired code (Props/C13.v: c13_content_no_panic_after_repair is the
+   full no-panic theorem for every tree with rep_tracks = true). *)
+Definition repo_repairs : repairs := {| rep_tracks := false; rep_join := false |}.
 
 Definition outcome_eqb (a b : outcome) : bool :=
   tracks_eqb (o_tracks a) (o_tracks b) && oend_eqb (oend_of (o_end a)) (oend_of (o_end b))
   && list_eqb (list_eqb Nat.eqb) (o_counts a) (o_counts b) && Nat.eqb (o_decodeErrors a) (o_decodeErrors b).
 
-Definition check_case (c : ccase) : list nat :=
-  let o := client_run_gen repo_repaired (cc_sc c) 0 in
-  let o2 := client_run_gen repo_repaired (cc_sc c) two_seconds in
+Definition check_case (rp : repairs) (c : ccase) : list nat :=
+  let o := client_run_gen rp (cc_sc c) 0 in
+  let o2 := client_run_gen rp (cc_sc c) two_seconds in
   (if outcome_eqb o o2 then [] else [1%nat]) ++
   (if tracks_eqb (o_tracks o) (cc_tracks c) then [] else [2%nat]) ++
   (if existsb (oend_eqb (oend_of (o_end o))) (cc_ends c) then [] else [3%nat]) ++
@@ -118,17 +118,20 @@ Definition check_case (c : ccase) : list nat :=
    | _ => []
    end).
 
-Fixpoint mismatches_from (i : nat) (cs : list ccase) : list (nat * list nat) :=
+Fixpoint mismatches_from (rp : repairs) (i : nat) (cs : list ccase) : list (nat * list nat) :=
   match cs with
   | [] => []
   | c :: cs' =>
-      match check_case c with
-      | [] => mismatches_from (S i) cs'
-      | ks => (i, ks) :: mismatches_from (S i) cs'
+      match check_case rp c with
+      | [] => mismatches_from rp (S i) cs'
+      | ks => (i, ks) :: mismatches_from rp (S i) cs'
       end
   end.
 
-Definition mismatches (cs : list ccase) : list (nat * list nat) := mismatches_from 0 cs.
+(* [mismatches]: against the tree /repo has (repo_repairs); [mismatches_for]: against a scratch
+   copy with the given repairs (mutation self-tests only) *)
+Definition mismatches_for (rp : repairs) (cs : list ccase) : list (nat * list nat) := mismatches_from rp 0 cs.
+Definition mismatches (cs : list ccase) : list (nat * list nat) := mismatches_for repo_repairs cs.
 
 (* bytes that coqfmt.Str cannot print as a literal *)
 Definition bs (l : list nat) : string := string_of_list_ascii (map Ascii.ascii_of_nat l).
